@@ -672,6 +672,10 @@ class ExcelCompiler:
                 if isinstance(cell, _Cell) and cell.python_code and (
                         not cell.address.is_unbounded_range):
                     original_value = cell.value
+                    if self.cycles and not self._values_changed:
+                        # iterating recalculates every cell it passes,
+                        # so take what the workbook holds for this one
+                        original_value = self.excel.get_range(addr).values
                     if original_value == str(cell.formula):
                         self.log.debug(f"No Orig data?: {addr}: {cell.value}")
                         continue
